@@ -11,6 +11,11 @@
 #include <pthread.h>
 #include <sched.h>
 #include <unistd.h>
+#include <fcntl.h>
+#include <locale.h>
+#include <signal.h>
+#include <sys/socket.h>
+#include <sys/resource.h>
 
 #include "vh.h"
 
@@ -130,6 +135,11 @@ static void workload(struct tctx* c) {
   FILE* df = open_memstream(&dtext, &dlen); /* private stream */
   struct vh_buf enc = {0}, dump = {0};
   int ctx;
+  /* private streams of other kinds too: a pipe and a socket (non-blocking, drained after every call) */
+  int pfd[2] = {-1, -1}, sv[2] = {-1, -1};
+  FILE* pf = NULL, * sf = NULL;
+  if (pipe2(pfd, O_NONBLOCK | O_CLOEXEC) == 0) { pf = fdopen(pfd[1], "w"); if (!pf) { close(pfd[0]); close(pfd[1]); pfd[0] = -1; } }
+  if (socketpair(AF_UNIX, SOCK_STREAM | SOCK_NONBLOCK | SOCK_CLOEXEC, 0, sv) == 0) { sf = fdopen(sv[1], "w"); if (!sf) { close(sv[0]); close(sv[1]); sv[0] = -1; } }
   dg = vh_hash_mix(dg, cold_touch(c, df, &dtext, &dlen));
   for (int i = 0; i < c->nops; i++) {
     /* the concurrent run and the solo run of the same workload differ in ambient thread state (errno, rounding mode):
@@ -187,6 +197,17 @@ static void workload(struct tctx* c) {
         fflush(df);
         dg = vh_hash_mix(dg, vh_hash(dtext, dlen));
         rewind(df);
+        for (int k = 0; k < 2; k++) {
+          FILE* kf = k ? sf : pf;
+          int kfd = k ? sv[0] : pfd[0];
+          if (!kf || dlen > 30000) continue;
+          STAMP(F_DESCRIBE, cbor_describe(it, kf));
+          fflush(kf);
+          clearerr(kf);
+          char drain[4096];
+          while (read(kfd, drain, sizeof drain) > 0) {}
+          c->ops_done[F_DESCRIBE]++;
+        }
         if (c->shared) {
           for (size_t q = 0; q < dlen; q++) c->hist[(uint8_t)dtext[q]]++;
           STAMP(F_DESCRIBE, cbor_describe(it, c->shared));
@@ -219,6 +240,8 @@ static void workload(struct tctx* c) {
     }
   }
   vh_ambient_restore();
+  if (pf) { fclose(pf); close(pfd[0]); }
+  if (sf) { fclose(sf); close(sv[0]); }
   fclose(df);
   free(dtext);
   vb_free(&enc); vb_free(&dump);
@@ -280,6 +303,50 @@ static void overlaps(struct tctx* cs, int n) {
     }
 }
 
+/* ------------------------------------------------ process-wide state outside the library's own segments
+ * Signal dispositions, the locale, the environment, resource limits, the working directory, the standard streams'
+ * buffering: state that lives in the kernel or in libc, that every thread shares, and that a library call may save,
+ * change and restore around its work — correct alone, lossy when two threads overlap. */
+extern char** environ;
+static uint64_t process_state(char* what, size_t cap) {
+  uint64_t h = 0x9e3779b97f4a7c15ull;
+  struct vh_buf b = {0};
+  for (int sig = 1; sig < 65; sig++) {
+    struct sigaction sa;
+    if (sig == SIGKILL || sig == SIGSTOP || sigaction(sig, NULL, &sa)) continue;
+    vb_printf(&b, "sig%d:%p:%x;", sig, (sa.sa_flags & SA_SIGINFO) ? (void*)sa.sa_sigaction : (void*)sa.sa_handler, (unsigned)sa.sa_flags);
+  }
+  const char* loc = setlocale(LC_ALL, NULL);
+  vb_printf(&b, "locale:%s;", loc ? loc : "?");
+  uint64_t eh = 0;
+  for (char** e = environ; e && *e; e++) eh = vh_hash_mix(eh, vh_hash(*e, strlen(*e)));
+  vb_printf(&b, "environ:%p:%llx;", (void*)environ, (unsigned long long)eh);
+  static const int lims[] = {RLIMIT_STACK, RLIMIT_NOFILE, RLIMIT_AS, RLIMIT_DATA, RLIMIT_CORE, RLIMIT_FSIZE};
+  for (size_t i = 0; i < sizeof lims / sizeof lims[0]; i++) { struct rlimit rl; if (!getrlimit(lims[i], &rl)) vb_printf(&b, "rlim%d:%llu:%llu;", lims[i], (unsigned long long)rl.rlim_cur, (unsigned long long)rl.rlim_max); }
+  char cwd[512];
+  vb_printf(&b, "cwd:%s;", getcwd(cwd, sizeof cwd) ? cwd : "?");
+  vb_printf(&b, "stdout:%zu:%d;stderr:%zu:%d;", __fbufsize(stdout), __flbf(stdout), __fbufsize(stderr), __flbf(stderr));
+  sigset_t cur;
+  if (!pthread_sigmask(SIG_SETMASK, NULL, &cur)) for (int sig = 1; sig < 65; sig++) if (sigismember(&cur, sig) == 1) vb_printf(&b, "blocked%d;", sig);
+  vb_u8(&b, 0);
+  h = vh_hash(b.p, b.n);
+  if (what) snprintf(what, cap, "%s", (char*)b.p);
+  vb_free(&b);
+  return h;
+}
+static void process_state_diff(const char* a, const char* b, char* out, size_t cap) {
+  /* first differing ';'-separated field */
+  const char* pa = a, * pb = b;
+  out[0] = 0;
+  while (*pa && *pb) {
+    const char* ea = strchr(pa, ';'), * eb = strchr(pb, ';');
+    if (!ea || !eb) break;
+    if (ea - pa != eb - pb || memcmp(pa, pb, (size_t)(ea - pa))) { snprintf(out, cap, "before '%.*s', after '%.*s'", (int)(ea - pa), pa, (int)(eb - pb), pb); return; }
+    pa = ea + 1; pb = eb + 1;
+  }
+  snprintf(out, cap, "(fields differ in number)");
+}
+
 /* ------------------------------------------------------------- C17 runs */
 static uint64_t g_runs, g_digest_mismatch, g_thread_workloads;
 
@@ -293,6 +360,8 @@ static void thr_case(int nthreads, int nops, uint64_t seed, bool tsan) {
   pthread_barrier_t bar;
   pthread_barrier_init(&bar, NULL, (unsigned)nthreads);
   memset(cs, 0, sizeof cs);
+  static char ps0[6000], ps1[6000];
+  uint64_t psh0 = process_state(ps0, sizeof ps0);
   FILE* shared = tmpfile();
   if (!shared) vh_die("tmpfile failed");
   for (int i = 0; i < nthreads; i++) {
@@ -303,6 +372,15 @@ static void thr_case(int nthreads, int nops, uint64_t seed, bool tsan) {
   for (int i = 0; i < nthreads; i++) pthread_join(th[i], NULL);
   pthread_barrier_destroy(&bar);
   overlaps(cs, nthreads);
+  {
+    uint64_t psh1 = process_state(ps1, sizeof ps1);
+    if (psh1 != psh0) {
+      char diff[400];
+      process_state_diff(ps0, ps1, diff, sizeof diff);
+      vh_violation("process-state-changed", "%d threads ran workloads on private items and private streams; afterwards process-wide state outside the library differs: %s — something saved, changed and restored it around a call, which loses updates when calls overlap", nthreads, diff);
+    }
+    VH_COUNT("process_state_snapshots_compared", 1);
+  }
   /* conservation on the shared stream: every byte the threads' describe calls produce arrives exactly once */
   {
     uint64_t want[256] = {0}, got[256] = {0}, calls = 0, total = 0;
